@@ -272,6 +272,8 @@ func (c *Ctx) comparatorFns() []*ssa.Function {
 		switch {
 		case fn.Signature.Recv() != nil && baseName(fn) == "Less" && isBoolType(res):
 			out = append(out, fn)
+		case fn.Parent() != nil && isBoolType(res) && fn.Signature.Params().Len() == 2 && isIntType(fn.Signature.Params().At(0).Type()) && isIntType(fn.Signature.Params().At(1).Type()):
+			out = append(out, fn) // func(i, j int) bool literals: the comparators handed to sort.Slice
 		case fn.Signature.Recv() == nil && fn.Signature.Params().Len() == 2 && types.Identical(fn.Signature.Params().At(0).Type(), fn.Signature.Params().At(1).Type()):
 			if b, isB := res.Underlying().(*types.Basic); isB && b.Kind() == types.Int {
 				allConst := true
@@ -377,7 +379,31 @@ func ruleCmpAntisym(c *Ctx) []Obligation {
 				plain = append(plain, r)
 			}
 		}
+		// a strict comparison evaluated where its operands are known to be equal decides nothing: the sign of a
+		// swapped tie-break test (`if a.k == b.k { return a.k < b.k }`)
+		nEq := 0
+		eachInstr(fn, func(in ssa.Instruction) {
+			bo, isB := in.(*ssa.BinOp)
+			if !isB || (bo.Op != token.LSS && bo.Op != token.GTR) {
+				return
+			}
+			for _, g := range guardsAt(bo.Block()) {
+				gb, isG := g.Cond.(*ssa.BinOp)
+				if !isG || !(gb.Op == token.EQL && g.Branch || gb.Op == token.NEQ && !g.Branch) {
+					continue
+				}
+				if sameLoadExpr(gb.X, bo.X) && sameLoadExpr(gb.Y, bo.Y) || sameLoadExpr(gb.X, bo.Y) && sameLoadExpr(gb.Y, bo.X) {
+					nEq++
+					obs = append(obs, bad(R, fmt.Sprintf("%s: comparison #%d is made between keys not known to be equal", c.FnName(fn), nEq), c.InstrPos(bo), "the two keys are compared with "+bo.Op.String()+" on the path where they were just found equal ("+c.InstrPos(gb)+"): the answer is always false, the primary key never orders anything, and elements with equal secondary keys keep their input (map) order"))
+				}
+			}
+		})
 		if len(ds) == 0 {
+			if nEq == 0 && fn.Parent() != nil {
+				o := ok(R, c.FnName(fn)+": no comparison between keys known to be equal", c.Pos(fn.Pos()), "tie-breaks are reached on inequality of the earlier key")
+				o.Trivial = true
+				obs = append(obs, o)
+			}
 			continue
 		}
 		opposite := func(k string) string {
@@ -520,6 +546,322 @@ func ruleIndexSentinel(c *Ctx) []Obligation {
 		o := ok(R, "no substring search in the lexer is tested against a constant", "-", "nothing to decide")
 		o.Trivial = true
 		obs = append(obs, o)
+	}
+	return obs
+}
+
+func init() {
+	register(&Rule{Name: "LINK.FIXPOINT", Props: []string{"C05", "C13"}, Floor: 2,
+		Doc: "imports and includes are linked in passes repeated until a pass loads nothing, and every pass starts with an empty visited set",
+		Run: ruleLinkFixpoint})
+}
+
+func ruleLinkFixpoint(c *Ctx) []Obligation {
+	const R = "LINK.FIXPOINT"
+	inc := c.Fn("yang.(*Modules).include")
+	proc := c.Fn("yang.(*Modules).Process")
+	if inc == nil || proc == nil {
+		return []Obligation{undecided(R, "linker", "-", "(*Modules).include / Process not found")}
+	}
+	var obs []Obligation
+	// the call of include from outside include itself, under Process
+	var site ssa.CallInstruction
+	var host *ssa.Function
+	reach := c.Reach([]*ssa.Function{proc}, nil)
+	for _, fn := range c.Funcs {
+		if !reach[fn] || fn == inc || fn.Blocks == nil {
+			continue
+		}
+		for _, ci := range c.callsTo(fn, inc) {
+			site, host = ci, fn
+		}
+	}
+	con := "linking is repeated until a pass loads no further module"
+	if site == nil {
+		return []Obligation{undecided(R, con, c.Pos(proc.Pos()), "no call of include under Process")}
+	}
+	inner := loopHeaderOf(site.Block())
+	var outer *ssa.BasicBlock
+	if inner != nil {
+		for h := inner.Idom(); h != nil; h = h.Idom() {
+			for _, p := range h.Preds {
+				if h.Dominates(p) && blockReaches(inner, p, nil) {
+					outer = h
+				}
+			}
+			if outer != nil {
+				break
+			}
+		}
+	}
+	if inner == nil || outer == nil {
+		obs = append(obs, bad(R, con, c.InstrPos(site), "the modules are linked in a single pass: an import without revision-date that was linked before a later statement fetched a newer revision from disk keeps the older one, so the links depend on the order of the modules"))
+		return obs
+	}
+	// the exit of the outer loop compares module counts (nothing was loaded)
+	mods := c.MustNamed("yang", "Modules")
+	fM, fS := FieldVar(mods, "Modules"), FieldVar(mods, "SubModules")
+	exitOK := false
+	for _, b := range host.Blocks {
+		if !outer.Dominates(b) || !blockReaches(b, outer, nil) && b != outer {
+			continue
+		}
+		ifi, isIf := b.Instrs[len(b.Instrs)-1].(*ssa.If)
+		if !isIf {
+			continue
+		}
+		leaves := false
+		for _, s := range b.Succs {
+			if !blockReaches(s, outer, nil) {
+				leaves = true
+			}
+		}
+		if !leaves {
+			continue
+		}
+		bo, isB := ifi.Cond.(*ssa.BinOp)
+		if !isB || (bo.Op != token.EQL && bo.Op != token.NEQ) {
+			continue
+		}
+		var counts func(v ssa.Value) bool
+		counts = func(v ssa.Value) bool {
+			switch x := v.(type) {
+			case *ssa.BinOp:
+				return counts(x.X) || counts(x.Y)
+			case *ssa.Phi:
+				for _, e := range x.Edges {
+					if counts(e) {
+						return true
+					}
+				}
+			case *ssa.Call:
+				if bi, isBI := x.Call.Value.(*ssa.Builtin); isBI && bi.Name() == "len" {
+					_, f, _ := loadedField(x.Call.Args[0])
+					return f == fM || f == fS
+				}
+			}
+			return false
+		}
+		if counts(bo.X) && counts(bo.Y) {
+			exitOK = true
+		}
+	}
+	if exitOK {
+		obs = append(obs, ok(R, con, c.InstrPos(site), "the retry loop is left when the number of filed modules did not change"))
+	} else {
+		obs = append(obs, bad(R, con, c.InstrPos(site), "the loop around the linking pass is not left on `the number of filed modules is unchanged`"))
+	}
+	// the visited set of include is emptied at the start of every pass
+	con = "every linking pass starts with an empty visited set"
+	var memo *types.Var
+	eachInstr(inc, func(in ssa.Instruction) {
+		if mu, isM := in.(*ssa.MapUpdate); isM {
+			if _, f, _ := loadedField(mu.Map); f != nil {
+				if owner, _, _ := loadedFieldOwner(mu.Map); owner == mods {
+					memo = f
+				}
+			}
+		}
+	})
+	if memo == nil {
+		o := ok(R, con, c.Pos(inc.Pos()), "include keeps no visited set on the module set")
+		o.Trivial = true
+		return append(obs, o)
+	}
+	reset := false
+	for _, st := range storesToField(host, memo) {
+		if _, isMk := st.Val.(*ssa.MakeMap); !isMk {
+			continue
+		}
+		b := st.Block()
+		if outer.Dominates(b) && blockReaches(b, outer, nil) && b.Dominates(inner) {
+			reset = true
+		}
+	}
+	if reset {
+		obs = append(obs, ok(R, con, c.InstrPos(site), "Modules."+recordedFieldName(memo)+" = map{} inside the retry loop, before the pass"))
+	} else {
+		obs = append(obs, bad(R, con, c.InstrPos(site), "the visited set Modules."+recordedFieldName(memo)+" is not emptied inside the retry loop: every pass after the first returns at once for each module, nothing is linked again, and the repeat has no effect"))
+	}
+	return obs
+}
+
+func loadedFieldOwner(v ssa.Value) (*types.Named, *types.Var, ssa.Value) {
+	owner, f, base := loadedField(v)
+	return owner, f, base
+}
+
+func init() {
+	register(&Rule{Name: "ID.POST", Props: []string{"C01", "C11", "C04"}, Floor: 3,
+		Doc: "post-condition of the identity-base lookup: a return with an empty error list is reached only where the base was found (callers dereference it when no error came back)",
+		Run: ruleIDPost})
+}
+
+func ruleIDPost(c *Ctx) []Obligation {
+	const R = "ID.POST"
+	fn := c.Fn("yang.(*Module).findIdentityBase")
+	if fn == nil {
+		return []Obligation{undecided(R, "identity base lookup", "-", "(*Module).findIdentityBase not found")}
+	}
+	var obs []Obligation
+	// evidence on an edge that the base was found: a comma-ok map lookup said ok, or the emptiness test said no
+	found := func(gs []Guard) string {
+		for _, g := range gs {
+			if ex, isE := g.Cond.(*ssa.Extract); isE && ex.Index == 1 && g.Branch {
+				if l, isL := ex.Tuple.(*ssa.Lookup); isL && l.CommaOk {
+					return "the dictionary lookup succeeded"
+				}
+			}
+			if call, isC := g.Cond.(*ssa.Call); isC && !g.Branch {
+				if cal := call.Call.StaticCallee(); cal != nil && baseName(cal) == "isEmpty" {
+					return "the base is not empty"
+				}
+			}
+		}
+		return ""
+	}
+	edgeGuards := func(p, to *ssa.BasicBlock) []Guard {
+		gs := guardsAt(p)
+		if ifi, isIf := p.Instrs[len(p.Instrs)-1].(*ssa.If); isIf && p.Succs[0] != p.Succs[1] {
+			gs = append(gs, Guard{Cond: ifi.Cond, Branch: p.Succs[0] == to, If: ifi})
+		}
+		// the guards of p itself when p is only entered through one branch
+		return gs
+	}
+	n := 0
+	for _, b := range fn.Blocks {
+		r, isR := b.Instrs[len(b.Instrs)-1].(*ssa.Return)
+		if !isR || len(r.Results) != 2 {
+			continue
+		}
+		ev := resolveSpill(r.Results[1], r)
+		type edge struct {
+			pred *ssa.BasicBlock
+			val  ssa.Value
+		}
+		var edges []edge
+		if phi, isPhi := ev.(*ssa.Phi); isPhi && phi.Block() == b {
+			for i, e := range phi.Edges {
+				edges = append(edges, edge{b.Preds[i], e})
+			}
+		} else {
+			for _, p := range b.Preds {
+				edges = append(edges, edge{p, ev})
+			}
+		}
+		for _, e := range edges {
+			n++
+			con := fmt.Sprintf("findIdentityBase: return edge #%d carries an error or a found base", n)
+			pos := c.InstrPos(e.pred.Instrs[len(e.pred.Instrs)-1])
+			if definitelyNonEmptySlice(e.val, e.pred) {
+				obs = append(obs, ok(R, con, pos, "an error was appended on this path"))
+				continue
+			}
+			if why := found(edgeGuards(e.pred, b)); why != "" {
+				obs = append(obs, ok(R, con, pos, why))
+				continue
+			}
+			obs = append(obs, bad(R, con, pos, "this path returns without an error and without evidence that the base was found: the callers take `no error` as `base resolved` and dereference its identity (nil), or link the identity to nothing"))
+		}
+	}
+	if n == 0 {
+		obs = append(obs, undecided(R, "findIdentityBase: returns", c.Pos(fn.Pos()), "no (base, errors) return found"))
+	}
+	return obs
+}
+
+func isIntType(t types.Type) bool {
+	b, ok := t.Underlying().(*types.Basic)
+	return ok && b.Kind() == types.Int
+}
+
+// sameLoadExpr: a and b read the same place: equal chains of loads, field selections and element selections over
+// identical roots (parameters, free variables, SSA values) and identical or equal-constant indices.
+func sameLoadExpr(a, b ssa.Value) bool {
+	if a == b {
+		return true
+	}
+	switch x := a.(type) {
+	case *ssa.UnOp:
+		y, ok := b.(*ssa.UnOp)
+		return ok && x.Op == y.Op && sameLoadExpr(x.X, y.X)
+	case *ssa.FieldAddr:
+		y, ok := b.(*ssa.FieldAddr)
+		return ok && x.Field == y.Field && sameLoadExpr(x.X, y.X)
+	case *ssa.Field:
+		y, ok := b.(*ssa.Field)
+		return ok && x.Field == y.Field && sameLoadExpr(x.X, y.X)
+	case *ssa.IndexAddr:
+		y, ok := b.(*ssa.IndexAddr)
+		return ok && sameLoadExpr(x.X, y.X) && sameLoadExpr(x.Index, y.Index)
+	case *ssa.Const:
+		y, ok := b.(*ssa.Const)
+		return ok && x.Value != nil && y.Value != nil && x.Value.ExactString() == y.Value.ExactString()
+	case *ssa.Call:
+		y, ok := b.(*ssa.Call)
+		if !ok || x.Call.StaticCallee() == nil || x.Call.StaticCallee() != y.Call.StaticCallee() || len(x.Call.Args) != len(y.Call.Args) {
+			return false
+		}
+		for i := range x.Call.Args {
+			if !sameLoadExpr(x.Call.Args[i], y.Call.Args[i]) {
+				return false
+			}
+		}
+		return true
+	}
+	return false
+}
+
+func init() {
+	register(&Rule{Name: "ERR.EMPTYTEST", Props: []string{"C04", "C18"}, Floor: 4,
+		Doc: "the length of an error list is only ever tested for emptiness (never against another count, never with a test that cannot fail)",
+		Run: ruleErrEmptyTest})
+}
+
+func ruleErrEmptyTest(c *Ctx) []Obligation {
+	const R = "ERR.EMPTYTEST"
+	var obs []Obligation
+	reach := c.Reach(c.libraryRoots(), nil)
+	for _, fn := range c.Funcs {
+		if fn.Blocks == nil || !reach[fn] || !c.isRepoFn(fn) {
+			continue
+		}
+		if root := rootFn(fn); root.Pkg == nil || shortPkg(root.Pkg.Pkg.Path()) == "main" {
+			continue
+		}
+		n := 0
+		eachInstr(fn, func(in ssa.Instruction) {
+			bo, isB := in.(*ssa.BinOp)
+			if !isB {
+				return
+			}
+			x, y, op := bo.X, bo.Y, bo.Op
+			if isLenOf(y) {
+				x, y = y, x
+				op = map[token.Token]token.Token{token.LSS: token.GTR, token.GTR: token.LSS, token.LEQ: token.GEQ, token.GEQ: token.LEQ, token.EQL: token.EQL, token.NEQ: token.NEQ}[op]
+			}
+			if !isLenOf(x) || !isErrorSlice(x.(*ssa.Call).Call.Args[0].Type()) {
+				return
+			}
+			k, okk := constInt(y)
+			if !okk {
+				return
+			}
+			switch op {
+			case token.LSS, token.GTR, token.LEQ, token.GEQ:
+			default:
+				return // == / != against a count (a switch on the length) is a different statement
+			}
+			n++
+			con := fmt.Sprintf("%s: error-count test #%d is an emptiness test", c.FnName(fn), n)
+			empt := op == token.GTR && k == 0 || op == token.LEQ && k == 0 || op == token.GEQ && k == 1 || op == token.LSS && k == 1
+			if empt {
+				o := ok(R, con, c.InstrPos(bo), fmt.Sprintf("len %s %d", op, k))
+				obs = append(obs, o)
+			} else {
+				obs = append(obs, bad(R, con, c.InstrPos(bo), fmt.Sprintf("the number of errors is tested with `%s %d`: the test either cannot fail / cannot hold, or lets one error through as if there were none", op, k)))
+			}
+		})
 	}
 	return obs
 }
